@@ -1,6 +1,7 @@
 package main
 
 import (
+	"go/types"
 	"encoding/json"
 	"flag"
 	"fmt"
@@ -133,7 +134,7 @@ func loadAll(pkgDirs []string) (*loaded, error) {
 	prog, _ := ssautil.AllPackages(pkgs, ssa.NaiveForm|ssa.GlobalDebug|ssa.InstantiateGenerics)
 	prog.Build()
 	eng := &Engine{prog: prog, layouts: map[string][]Comp{}, heapSorts: map[string]Sort{}, heapComps: map[string]Comp{}, typeIDs: map[string]int{},
-		contracts: map[string]*FuncContract{}, specs: map[string]*SpecFunc{}, fnByKey: map[string]*ssa.Function{}, repoPrefix: modPath, pkgInvs: map[string][]Clause{}}
+		contracts: map[string]*FuncContract{}, specs: map[string]*SpecFunc{}, fnByKey: map[string]*ssa.Function{}, repoPrefix: modPath, pkgInvs: map[string][]Clause{}, implCache: map[string]map[string]bool{}}
 	for _, cf := range ld.files {
 		for _, sf := range cf.Specs {
 			if _, dup := eng.specs[sf.Name]; dup {
@@ -158,6 +159,25 @@ func loadAll(pkgDirs []string) (*loaded, error) {
 	}
 	eng.files = ld.files
 	ld.eng = eng
+	// register the heap components of every named struct type of the repository packages,
+	// so that "the object behind an interface" ranges over a fixed key universe
+	for _, p := range prog.AllPackages() {
+		if !strings.HasPrefix(p.Pkg.Path(), modPath) {
+			continue
+		}
+		for _, name := range p.Pkg.Scope().Names() {
+			if tn, ok := p.Pkg.Scope().Lookup(name).(*types.TypeName); ok && !tn.IsAlias() {
+				if _, isS := tn.Type().Underlying().(*types.Struct); isS {
+					if nt, ok := tn.Type().(*types.Named); ok && nt.TypeParams().Len() > 0 {
+						continue
+					}
+					for j := range eng.layout(tn.Type()) {
+						eng.heapKey("H", tn.Type(), j)
+					}
+				}
+			}
+		}
+	}
 	return ld, nil
 }
 
